@@ -203,22 +203,26 @@ func (p *ProofD) MergeProofP(proofP *ProofP, _ *gabikeys.PublicKey) {
 }
 
 func (p *ProofD) reconstructRangeProofStructures(pk *gabikeys.PublicKey) error {
-	p.cachedRangeStructures = make(map[int][]*rangeproof.ProofStructure)
+	// Only store the structures in the proof once all of them have been reconstructed: a partially
+	// filled cache would make a second verification of this same ProofD skip the range proofs whose
+	// structure could not be reconstructed, and accept the proof.
+	structures := make(map[int][]*rangeproof.ProofStructure)
 	for index, proofs := range p.RangeProofs {
 		// A range proof is only meaningful, and is only verified below, when it is tied to the
 		// response of a hidden attribute of this proof.
 		if p.AResponses[index] == nil {
 			return errors.New("range proof on an attribute that is not hidden")
 		}
-		p.cachedRangeStructures[index] = []*rangeproof.ProofStructure{}
+		structures[index] = []*rangeproof.ProofStructure{}
 		for _, proof := range proofs {
 			s, err := proof.ExtractStructure(index, pk)
 			if err != nil {
 				return err
 			}
-			p.cachedRangeStructures[index] = append(p.cachedRangeStructures[index], s)
+			structures[index] = append(structures[index], s)
 		}
 	}
+	p.cachedRangeStructures = structures
 	return nil
 }
 
